@@ -71,6 +71,9 @@ def cases(rng, tier):
                 for gz in (False, True):
                     for s in (["g"], ["u", "g"], ["c"]):
                         yield {"kind": "script", "retries": 1, "script": s, "dl": dl, "even": even, "entry": entry, "gz": gz}
+    # a gzip archive of several members
+    for sc in (["g"], ["u", "g"], ["c"]):
+        yield {"kind": "script", "retries": 1, "script": sc, "dl": True, "even": False, "entry": "none", "gz": "multi"}
     # crash points
     pts = CRASH_POINTS if tier != "search" else rng.sample(CRASH_POINTS, 4)
     for cp in pts:
